@@ -65,7 +65,10 @@ def oracle(ctx, trig, n_docs, per_rule={}):
         base = ctx.rng.sample(others, ctx.rng.randint(0, len(others)))
         pos = ctx.rng.randint(0, len(base))
         if P == "speedup":
-            pos = len(base)          # speedup has no trigger characters at all; the claim is for speedup registered last (C09)
+            # speedup has no trigger characters at all; any position, except before url / spoiler (C09: registered before them it shadows their start characters on the unchanged tree)
+            late = [i for i, p in enumerate(base) if p in ("url", "spoiler")]
+            if late:
+                pos = max(pos, late[-1] + 1)
         hw = ctx.rng.random() < 0.25
         esc = ctx.rng.random() < 0.5
 
@@ -105,6 +108,13 @@ def oracle(ctx, trig, n_docs, per_rule={}):
                     raw = gen.md_any(ctx.rng, 8)
             else:
                 raw = gen.md_nested(ctx.rng) if rr < 0.45 else gen.md_any(ctx.rng, 8)
+            if P == "spoiler" and ctx.rng.random() < 0.5:
+                # spoiler REPLACES the block-quote parser: quote-shaped documents without "!" (one needed character of each of its rules) must come out as from the core parser
+                chars = {"!"}
+                qt = [t for t in gen.SLOT_TEMPLATES if t.startswith(">") or "\n>" in t or t.startswith("- >")]
+                raw = gen.fill(ctx.rng, ctx.rng.choice(qt)) if ctx.rng.random() < 0.6 else "".join(ctx.rng.choice(["> ", ">", "> > ", "- > ", ">\t"]) + ctx.rng.choice(["text", "```", "~~~", "", "    code", "- item", "<pre>", "<?php", "# h", "***", "a | b", "", ""]) + "\n" for _ in range(ctx.rng.randint(1, 7)))
+                if ctx.rng.random() < 0.5:
+                    raw += ctx.rng.choice([">\n", ">\n>\n", "\n", ">\n\nafter\n", "> \n>  \n"])
             doc = strip_chars(raw, chars)
         if P == "rst":
             doc = doc.replace("..", "")
